@@ -232,6 +232,13 @@ extend("C06", "the stream listeners' in-place FORMERR/NOTIMP rejection (tcpJob.r
 
 extend("C01", "unsigned data only below a proven insecure delegation: Resolver.provenInsecureDelegation / authenticatedDelegationDS over scripted outcomes of the DS sub-query, the signature check and the delegation proof at each zone-cut candidate - true only if every cut above was a verified secure delegation and this cut's DS answer verified and holds no usable DS, or none with a verified delegation proof from the signer's own zone; every DS answer is checked against the zone directly above; any failed lookup, failed/errored check, foreign-zone or missing proof keeps the data bogus.")
 
+# tenth round (after the third set of independently seeded changes)
+extend("C01", "missing signatures are tolerated only without a usable DS: Resolver.isZoneSecure (the DS walk below an ancestor's DS stubbed) says 'unsigned' only if the DS set in hand holds no usable DS in any position, or that DS is an ancestor's and the validated walk to the zone ends without one; a failing walk keeps the zone signed.")
+extend("C02", "RFC 8020 stop: Resolver.processAuthoritySection ends the resolution on a minimised NXDOMAIN only when that very response carries local validation provenance marked aggressive, with an NXDOMAIN proof, and no NSEC3 of the zone in it has Opt-Out; otherwise the walk continues.")
+extend("C03", "the byte path's alias chase (Cache.collectWireChase) takes an entry found under a hop's key into the reply only if it was stored for that target name, type and class, in the client's CD partition and for no ECS audience.")
+extend("C11", "the inline pass over a datagram (udpEngine.serveInline with a scripted pipeline that stages / declines / panics) ends in exactly one of: reply in the reader's burst, job handed back unanswered and marked for replay, job released - and a staged reply is always terminal.")
+extend("C13", "a SERVFAIL served from the failure cache (Cache.handleFailureHit) is marked as a cached failure in the request tree's own meta - also when that is a detached one and not the chain's - while it passes the writers above, so wrappers treat it as terminal; EDE 13 for EDNS clients.")
+
 NA_REASON = "no check registered yet: the solver-based harness for this property is still being built in this session (see DESIGN.md §5 for the plan)"
 def main():
     props = [json.loads(l) for l in open(os.path.join(ROOT, "properties.jsonl"))]
